@@ -32,6 +32,9 @@ EXPRS_Q = [
     (["a"], ["lit", "a"], "v1"), (["-a"], ["not", ["lit", "a"]], "v1"), (["a,b"], ["or", ["lit", "a"], ["lit", "b"]], "v1"),
     (["a", "~b"], ["and", ["lit", "a"], ["not", ["lit", "b"]]], "auto"), ("~@a @b", ["and", ["not", ["lit", "a"]], ["lit", "b"]], "auto"),
     ("-a,b ab", ["and", ["or", ["not", ["lit", "a"]], ["lit", "b"]], ["lit", "ab"]], "v1"),
+    # tag names that contain a v2 keyword as a substring (dialect detection must look at whole words)
+    ("@a,@band", ["or", ["lit", "a"], ["lit", "band"]], "auto", ["a", "b", "band"]),
+    ("nor,b", ["or", ["lit", "nor"], ["lit", "b"]], "auto", ["nor", "b", "ab"]),
 ]
 EXPRS_T = EXPRS_Q + [
     ("not (a or b)", ["not", ["or", ["lit", "a"], ["lit", "b"]]], "v2"), ("not not a", ["not", ["not", ["lit", "a"]]], "v2"),
@@ -74,7 +77,8 @@ def h_select(sx):
         nsel = [s for s in leaves if ex.selected.get(s.eid)]
         if not nsel:
             sx.check(st[c.eid] == "skipped", "C09.container-without-selected-scenario-is-skipped", detail=lambda m, c=c: dict(det(m), elem=c.eid))
-        elif not flags["dry_run"]:
+        elif not flags["dry_run"] and any(st[s.eid] != "skipped" for s in nsel):
+            # (a selected scenario may still skip itself at run time: outcome 5 of the thorough domain)
             sx.check(st[c.eid] != "skipped", "C09.container-with-executed-scenario-not-skipped", detail=lambda m, c=c: dict(det(m), elem=c.eid))
     return w.observable()
 
@@ -99,13 +103,16 @@ def jobs(tier, seed):
             "outline2": [F([S(1), O(2, [(2, []), (1, [])], tags=["p<x>"])], bg=1)],
         })
     exprs = EXPRS_Q if tier == "quick" else EXPRS_T
-    dom = [0, 1] if tier == "quick" else [0, 5]
     for sname, sh in shapes.items():
-        for i, (text, tree, proto) in enumerate(exprs):
+        # the three larger thorough-only shapes keep the quick outcome domain (sizing: 37 min -> about 12)
+        dom = [0, 1] if tier == "quick" or sname in ("2rules", "2feat", "outline2") else [0, 5]
+        for i, ex in enumerate(exprs):
+            text, tree, proto = ex[:3]
+            names = ex[3] if len(ex) > 3 else ["a", "b", "ab"]
             if sname == "outline-untagged" and tier == "quick" and i not in (0, 1, 3, 6, 11, 13):
                 continue
             js.append(Job("sel.%s.e%02d" % (sname, i), "props.c09:h_select",
-                          {"shapes": sh, "opts": {"ptags": ["a", "b", "ab"], "tag_universe": ["a", "b", "ab"],
+                          {"shapes": sh, "opts": {"ptags": names, "tag_universe": names,
                                                   "tag_expr": {"text": text, "tree": tree, "protocol": proto},
                                                   "dry_run": "sym", "out_dom": {"*": dom}, "undef": False}},
                           reach=REACH[:2], min_paths=4, cost=100, validate=25 if tier == "quick" else 200, closure=False))
